@@ -99,6 +99,23 @@ func VerifC05_Enforcement() {
 	v := verifBuildStrategy(kind, 7)
 	l := verifLimiterConfig(d, v.s)
 	v.enforced("construction", e0)
+	// the partition table may change after construction: a partition added dynamically (and one
+	// removed) - the later update must recompute the added partition's share as well
+	const fc = 0.2
+	var lc *strategy.LookupPartition
+	var pc *strategy.PredicatePartition
+	dynamic := kind >= 2 && verif.Choice("dynamicPartitions", 2) == 1
+	if dynamic {
+		if kind == 2 {
+			lc = strategy.NewLookupPartitionWithMetricRegistry("c", fc, 1, core.EmptyMetricRegistryInstance)
+			verif.Assert("dynamic-add-ok", v.lookup.AddPartition("c", lc))
+			verif.Assert("dynamic-add-share-of-current-limit", lc.Limit() == verifShare(floor1(e0), fc))
+		} else {
+			pc = strategy.NewPredicatePartitionWithMetricRegistry("c", fc, matchers.StringPredicateMatcher("z", false), core.EmptyMetricRegistryInstance)
+			verif.Assert("dynamic-add-ok", v.pred.AddPartition(pc))
+			verif.Assert("dynamic-add-share-of-current-limit", pc.Limit() == verifShare(floor1(e0), fc))
+		}
+	}
 	// a completion from an arbitrary window state
 	verifLimiterState(l)
 	ctx := context.WithValue(context.WithValue(context.Background(), matchers.LookupPartitionContextKey, "a"), matchers.StringPredicateContextKey, "x")
@@ -111,6 +128,12 @@ func VerifC05_Enforcement() {
 	}
 	if d.samples > 0 {
 		v.enforced("update", d.est)
+		if dynamic && kind == 2 {
+			verif.Assert("update-recomputes-dynamically-added-share", lc.Limit() == verifShare(floor1(d.est), fc))
+		}
+		if dynamic && kind == 3 {
+			verif.Assert("update-recomputes-dynamically-added-share", pc.Limit() == verifShare(floor1(d.est), fc))
+		}
 		verif.Reach("updated")
 	} else {
 		v.enforced("no-update", e0)
@@ -149,6 +172,16 @@ func VerifC02_Default_Conservation() {
 	default:
 		strategy.VerifSetPred(v.pred, int32(total), int32(ba), int32(bb))
 	}
+	// the request is for partition a, or for a key / value no partition is configured for (lookup:
+	// charged to the unknown bin; predicate: refused)
+	unknownKey := kind >= 2 && verif.Choice("unknownKey", 2) == 1
+	// slot "a" of the bookkeeping below is the bin the request is charged to: partition a, or - for
+	// an unknown key of the lookup strategy - the unknown bin (partition a itself must then not move)
+	chargedToUnknown := kind == 2 && unknownKey
+	baKnown := ba
+	if chargedToUnknown {
+		ba = bo
+	}
 	busy := func() (int, int, int) {
 		switch kind {
 		case 0:
@@ -156,15 +189,26 @@ func VerifC02_Default_Conservation() {
 		case 1:
 			return v.precise.GetBusyCount(), 0, 0
 		case 2:
+			if chargedToUnknown {
+				verif.Assert("unknown-key-leaves-named-bins-alone", v.la.BusyCount() == baKnown)
+				return v.lookup.BusyCount(), strategy.VerifLookupUnknown(v.lookup).BusyCount(), v.lb.BusyCount()
+			}
 			return v.lookup.BusyCount(), v.la.BusyCount(), v.lb.BusyCount()
 		}
 		return v.pred.BusyCount(), v.pa.BusyCount(), v.pb.BusyCount()
 	}
+	key, val := "a", "x"
+	if unknownKey {
+		key, val = "no-such-partition", "no-such-value"
+	}
 	// the caller's context is in an arbitrary state (live, or cancelled at any instant)
-	ctx := context.WithValue(context.WithValue(verif.CancelCtx("caller"), matchers.LookupPartitionContextKey, "a"), matchers.StringPredicateContextKey, "x")
+	ctx := context.WithValue(context.WithValue(verif.CancelCtx("caller"), matchers.LookupPartitionContextKey, key), matchers.StringPredicateContextKey, val)
 	lst, ok := l.Acquire(ctx)
 	verif.Assert("listener-iff-ok", (lst != nil) == ok)
 	t1, a1, b1 := busy()
+	if kind == 3 && unknownKey {
+		verif.Assert("predicate-refuses-unmatched-request", !ok)
+	}
 	if !ok {
 		verif.Assert("refusal-holds-nothing", *l.inFlight == g && t1 == total && (kind < 2 || (a1 == ba && b1 == bb)))
 		verif.Reach("refused")
